@@ -171,9 +171,16 @@ func genGemm(r *gen.R, validOnly bool) (mon.OpReq, Expect, bool) {
 	alpha, beta := 1.0, 1.0
 	req := mon.OpReq{Op: "Gemm"}
 	pick := func() float64 {
-		v := r.PickFloat(0, 1, -1, 0.5, 2.5, 99)
+		v := r.PickFloat(0, 1, -1, 0.5, 2.5, 99, 98)
 		if v == 99 {
 			v = float64(float32(r.Uniform(-3, 3)))
+		}
+		if v == 98 { // a factor a few float32 steps away from one is not one
+			k := float64(r.Range(3, 16))
+			if r.Bool() {
+				k = -k
+			}
+			v = float64(float32(1 + k/8388608))
 		}
 		return v
 	}
